@@ -176,13 +176,43 @@ def _producer_keys(p):
     fi = p.func("reader.read_header_line")
     keys = None
     rets = [s for s in walk_shallow(fi.node) if isinstance(s, ast.Return) and s.value is not None]
+
+    def dict_keys(v, depth=0):
+        if isinstance(v, ast.Dict) and all(isinstance(k, ast.Constant) for k in v.keys):
+            return {k.value for k in v.keys}
+        if depth > 3:
+            return None
+        if isinstance(v, ast.Call):
+            f = v.func
+            if isinstance(f, ast.Name) and f.id in ("dict", "OrderedDict") and len(v.args) == 1:
+                return dict_keys(v.args[0], depth + 1)
+            if isinstance(f, ast.Attribute) and f.attr == "copy" and not v.args:
+                return dict_keys(f.value, depth + 1)
+            if isinstance(f, ast.Name) and f.id == "deepcopy" and v.args:
+                return dict_keys(v.args[0], depth + 1)
+        if isinstance(v, ast.Name) and v.id in fi.module.globals:
+            out = None
+            for gv in fi.module.globals[v.id]:
+                ks = dict_keys(gv, depth + 1)
+                if ks is None:
+                    return None
+                out = ks if out is None else (out & ks)
+            return out
+        return None
+
     for rt in rets:
         if isinstance(rt.value, ast.Name):
+            assigned = False
             for s in walk_shallow(fi.node):
                 if isinstance(s, ast.Assign) and any(isinstance(t, ast.Name) and t.id == rt.value.id for t in s.targets):
-                    if isinstance(s.value, ast.Dict) and all(isinstance(k, ast.Constant) for k in s.value.keys):
-                        ks = {k.value for k in s.value.keys}
+                    assigned = True
+                    ks = dict_keys(s.value)
+                    if ks is not None:
                         keys = ks if keys is None else (keys & ks)
+            if not assigned:
+                ks = dict_keys(rt.value)
+                if ks is not None:
+                    keys = ks if keys is None else (keys & ks)
         elif isinstance(rt.value, ast.Dict) and all(isinstance(k, ast.Constant) for k in rt.value.keys):
             ks = {k.value for k in rt.value.keys}
             keys = ks if keys is None else (keys & ks)
@@ -319,6 +349,9 @@ def scan_partial_ops(fi, nodes_iter, tainted, skip_protected_from=None, dict_var
             elif isinstance(f, ast.Attribute) and isinstance(f.value, ast.Name) and f.value.id == "re" and name in (
                     "compile", "match", "search", "sub", "fullmatch", "findall", "split") and sub.args and tainted(sub.args[0]):
                 yield sub, "line-derived text used as a regular expression in %s (re.error)" % unparse(sub)
+            elif isinstance(f, ast.Attribute) and name in ("format", "format_map") and not isinstance(
+                    f.value, (ast.Constant, ast.JoinedStr)) and _is_stringy(f.value) and tainted(f.value):
+                yield sub, "line-derived text is used as a str.format template in %s" % unparse(sub)
             elif isinstance(f, ast.Name) and name == "getattr" and len(sub.args) == 2 and tainted(sub.args[1]):
                 yield sub, "getattr with a line-derived attribute name and no default"
         elif isinstance(sub, ast.Assert):
@@ -326,6 +359,10 @@ def scan_partial_ops(fi, nodes_iter, tainted, skip_protected_from=None, dict_var
                 yield sub, "assert on line-derived data outside a catch-all try: %s" % unparse(sub)
         elif isinstance(sub, ast.BinOp) and isinstance(sub.op, (ast.Div, ast.FloorDiv, ast.Mod)):
             if isinstance(sub.left, ast.Constant) and isinstance(sub.left.value, str):
+                continue
+            if isinstance(sub.op, ast.Mod) and _is_stringy(sub.left) and tainted(sub.left):
+                yield sub, ("line-derived text is used as a %%-format string in %s (a '%%' in a mnemonic raises "
+                            "ValueError/TypeError)" % unparse(sub))
                 continue
             if tainted(sub.right) and not isinstance(sub.right, ast.Constant):
                 if isinstance(sub.op, ast.Mod) and not isinstance(sub.left, (ast.Name, ast.Attribute, ast.Call, ast.BinOp)):
@@ -338,6 +375,28 @@ def scan_partial_ops(fi, nodes_iter, tainted, skip_protected_from=None, dict_var
                         cn = sub.value.func.attr if isinstance(sub.value.func, ast.Attribute) else ""
                         if cn in ("split", "rsplit", "partition", "rpartition") and cn.endswith("split"):
                             yield sub, "tuple-unpacking of %s: the number of parts depends on the line" % unparse(sub.value)
+
+
+def _is_stringy(e):
+    """expression built by string concatenation / a name that is assigned one (syntactic, conservative)"""
+    if isinstance(e, ast.BinOp) and isinstance(e.op, ast.Add):
+        return _is_stringy(e.left) or _is_stringy(e.right)
+    if isinstance(e, ast.Constant):
+        return isinstance(e.value, str)
+    if isinstance(e, ast.JoinedStr):
+        return True
+    if isinstance(e, ast.Name):
+        fn = None
+        for par in parents(e):
+            if isinstance(par, (ast.FunctionDef, ast.Lambda)):
+                fn = par
+                break
+        if fn is not None and not isinstance(fn, ast.Lambda):
+            for s in walk_shallow(fn):
+                if isinstance(s, ast.Assign) and any(isinstance(t, ast.Name) and t.id == e.id for t in s.targets):
+                    if not isinstance(s.value, ast.Name) and _is_stringy(s.value):
+                        return True
+    return False
 
 
 def _membership_guard(sub):
@@ -419,7 +478,8 @@ def rule_total(ctx):
     keyed_funcs = {}
     for q, cf in sorted(clos.items()):
         node = cf.node
-        params = [x for x in cf.params() if x not in ("self", "cls")]
+        data_class = cf.cls is not None and cf.cls.name in ("SectionItems", "HeaderItem", "CurveItem")
+        params = [x for x in cf.params() if x not in ("self", "cls") or (data_class and x == "self")]
         pset = set(params)
         ccfg = build_cfg(p, cf)
         cprov = Provenance(ccfg)
@@ -490,3 +550,37 @@ def rule_steer_lookup(ctx):
                       "lookup of %s is guarded by `%r in %s`" % (mn, mn, cont),
                       "lookup %s is not guarded by a membership test: a header section without %s raises" % (unparse(sub), mn))
     ctx.floor("HDR.STEER-LOOKUP", 4)
+
+
+def rule_no_state(ctx):
+    """The per-line parsing code keeps no state between lines: neither the line parser nor anything the header loop
+    reaches writes module-level objects, and the dict handed back for a line is built inside the call."""
+    from sa.effects import get_effects, fmt_path
+    p = ctx.p
+    r = get_resolver(p)
+    ea = get_effects(p)
+    fi, loop, calls = _line_loop(p)
+    roots = [fi, p.func("reader.read_header_line"), p.func("reader.configure_metadata_patterns")]
+    if p.has_func("reader.read_line"):
+        roots.append(p.func("reader.read_line"))
+    clos = r.closure(roots)
+    n = 0
+    for q, cf in sorted(clos.items()):
+        n += 1
+        bad = [e for e in ea.local_effects(cf) if e.path[0][0] == "global"]
+        site = "%s#module-state" % q
+        if bad:
+            e = bad[0]
+            ctx.bad("HDR.NO-STATE", site, cf, e.node, "%s writes module-level state %s while parsing a header line: "
+                    "fields of one line (or one read) leak into the next" % (q, fmt_path(e.path)))
+        else:
+            ctx.ok("HDR.NO-STATE", site, cf, cf.node, "writes no module-level object")
+    # the returned dict must be fresh per call
+    rf = p.func("reader.read_header_line")
+    rp = ea.return_paths(rf)
+    glob = [x for x in rp if x[0][0] == "global"]
+    ctx.check(not glob, "HDR.NO-STATE", "reader.read_header_line#returned-dict", rf, rf.node,
+              "the dict returned for a line is created inside the call",
+              "read_header_line returns (an alias of) module-level object %s: all lines share one dict"
+              % ", ".join(fmt_path(x) for x in glob))
+    ctx.floor("HDR.NO-STATE", 8)
